@@ -649,6 +649,7 @@ class LanczosGroundState(KrylovBased):
         Returns the number of steps performed.
         """
         h = self._h_krylov
+        self._cache = []  # a previous run (e.g. of LanczosEvolution) may have left vectors of its rebuild pass
         w = self.psi0  # initialize
         beta = npc.norm(w)
         if beta < self._cutoff:
